@@ -38,6 +38,16 @@ CHECKS["C20"] = dict(
     technique="Lean 4 proofs over Go->Lean translated definitions (exact and rounded) + estimator models + differential correspondence",
     design="5/C20", engine="hashrate")
 
+CHECKS["C11"] = dict(
+    text="Kernel-checked theorems over a model of the allocator loops, for any item order and any population: whole-miner "
+         "allocation hands out only eligible free miners at their own rate, sum <= request, each rate fits what was missing, "
+         "remainder = request - sum, no miner twice; partial allocation: every chunk >= minimum, within the miner's spare capacity "
+         "for the remaining time, total <= request, no miner twice, nothing with zero time left. The real Allocator over real "
+         "Schedulers (fake proxies) is run against the model and against the clauses (incl. a miner that starts disconnecting "
+         "while tasks are handed out).",
+    technique="Lean 4 proofs by induction over the allocation loops + differential correspondence",
+    design="5/C11", engine="allocator")
+
 NOT_YET = {}
 
 ALL = ["C%02d" % i for i in range(1, 21)]
